@@ -3,6 +3,7 @@
 # and run the property's check against it. Uses a scratch worktree of /repo HEAD under /work/try (removed afterwards).
 set -u
 SEED=$(realpath "$1"); PROP=$2; TIER=${3:-quick}
+VROOT=$(cd "$(dirname "$(realpath "$0")")/.." && pwd)   # the /verif checkout this script lives in (a worktree in parallel work)
 WT=/work/try/$PROP-$$/repo
 mkdir -p "$(dirname "$WT")"
 git -C /repo worktree add -q --detach "$WT" HEAD || exit 2
@@ -11,7 +12,7 @@ trap cleanup EXIT
 echo "== demo on unchanged tree"; (cd "$WT" && PYTHONPATH="$WT/src" /venv/bin/python "$SEED/demo.py" 2>&1 | grep -v conda | tail -2); echo "exit=$?"
 git -C "$WT" apply "$SEED/patch.diff" || { echo "PATCH DOES NOT APPLY"; exit 2; }
 echo "== demo with the change"; (cd "$WT" && PYTHONPATH="$WT/src" /venv/bin/python "$SEED/demo.py" 2>&1 | grep -v conda | tail -2)
-if [ "${SKIP_BASELINE:-0}" != "1" ]; then echo "== test suite with the change"; /verif/tools/baseline.sh "$WT" 2>&1 | grep -v conda | tail -2; fi
+if [ "${SKIP_BASELINE:-0}" != "1" ]; then echo "== test suite with the change"; "$VROOT"/tools/baseline.sh "$WT" 2>&1 | grep -v conda | tail -2; fi
 echo "== check $PROP ($TIER) with the change"
-cd /verif && MXLPY_REPO="$WT" python3 run.py --prop "$PROP" --tier "$TIER" 2>&1 | grep -v conda | tail -4
-git -C /verif checkout -q -- evidence 2>/dev/null
+cd "$VROOT" && MXLPY_REPO="$WT" python3 run.py --prop "$PROP" --tier "$TIER" 2>&1 | grep -v conda | tail -4
+git -C "$VROOT" checkout -q -- evidence 2>/dev/null
